@@ -60,6 +60,8 @@ Requests ==
 \cup {Req("Rejection", k, 0, 0, 0, 0) : k \in 0..4}
 \cup {Req("Round", dg, 0, 0, 0, 0) : dg \in {1, 7, 8, UMAX}}
 \cup {Req("Factorial", n, 0, 0, 0, 0) : n \in {0, 170, 171, UMAX}}
+\* the same guard after the memo table has been filled by an earlier call (how = 0: Factorial(m), 1: Binomial_Coefficient(m, m/2))
+\cup {Req("FactorialAfter", how, m, n, 0, 0) : how \in 0..1, m \in {5, 169, 170}, n \in {170, 171, 172}}
 \cup {Req("BinomCoef", n, k, 0, 0, 0) : n \in 0..2, k \in 0..2}
 \* around the switch-over from the factorial table to lnGamma (n = 170 | 171) and far beyond: every 0 <= k <= n has a meaning;
 \* f = 0 the coefficient, 1 / 2 the binomial mass function / CDF with that number of trials
@@ -114,6 +116,7 @@ Meaningful(r) ==
     [] r.ep = "Rejection" -> r.a \in {0, 4}
     [] r.ep = "Round"    -> r.a <= 7
     [] r.ep = "Factorial" -> r.a <= 170
+    [] r.ep = "FactorialAfter" -> r.c <= 170                                       \* whatever was asked before
     [] r.ep = "BinomBig" -> TRUE
     [] r.ep = "BinomCoef" -> r.a >= 1 /\ r.b >= 1                                  \* codes 0,1,2 stand for -1,0,1
     [] r.ep \in {"GammaLn", "Gamma"} -> r.a >= 2                                   \* codes: -1, 0, tiny, 1
